@@ -233,7 +233,11 @@ class Runtime:
             prefer = {
                 0: [lambda n, r: r["st"] == "a" and n != me, lambda n, r: r["st"] == "a"],
                 1: [lambda n, r: n == me and r["st"] == "a", lambda n, r: r["st"] == "a"],
-                2: [lambda n, r: r["st"] == "r"],
+                # a stale handle is only used again while no newer watch is registered on the same descriptor:
+                # several loops use the descriptor itself as the handle, so the stale handle would alias the
+                # new registration (a caller error, not a property matter)
+                2: [lambda n, r: r["st"] == "r" and not any(
+                    o["st"] == "a" and o["fd"] == r["fd"] for o in self.watches.values())],
             }[mode % 3]
             name = self._pick(self.watches, kk, prefer)
             if name is None:
